@@ -490,9 +490,10 @@ Definition exec_phase (mods : list gmod) (arg : expr) (qubits : list qarg) : SM 
   '(k, inv) <~ scollapse mods 1 false;;
   sguard (k <? 10000) (EUnmodelled "huge power");;~
   s <~ sget_st;;
-  (match qubits, s_env s with
-   | _ :: _, [f] => schecked                         (* operands on gphase at global scope *)
-   | _, _ => sret tt
+  (* operands on gphase are rejected at global scope and in the blocks of it *)
+  (match qubits with
+   | _ :: _ => if existsb (fun f => match fk f with FFunc | FGate => true | _ => false end) (s_env s) then sret tt else schecked
+   | [] => sret tt
    end);;~
   (if inv && (1 <? k) then known "pow of an inverted gphase" (sret tt) else sret tt);;~
   v <~ seval0 arg false;;
